@@ -259,10 +259,23 @@ def convert_events(evs, attach_calls=True):
     return out
 
 
+WIDE_CAP = 1 << 30
+
+
+def _cap_wide(x):
+    """TLC integers are 32 bits wide: configured / recorded block sizes are capped at 2^30 on both sides of every comparison
+    (monotone, so equal values stay equal and a value reduced modulo 2^32 or clamped no longer equals the configured one)"""
+    if isinstance(x, dict):
+        return {k: (min(v, WIDE_CAP) if k in ("bs", "data_block_size") and isinstance(v, int) and not isinstance(v, bool) else _cap_wide(v)) for k, v in x.items()}
+    if isinstance(x, list):
+        return [_cap_wide(v) for v in x]
+    return x
+
+
 def write_trace(path, recs):
     with open(path, "w") as f:
         for r in recs:
-            f.write(json.dumps(r, separators=(",", ":")) + "\n")
+            f.write(json.dumps(_cap_wide(r), separators=(",", ":")) + "\n")
 
 
 def validate_trace(trace_path, module="Trace_Mtbl", cfg=None, timeout=900, java_opts=("-Xss64m",)):
@@ -307,6 +320,14 @@ def validate_batch(ctx, recs, name, module="Trace_Mtbl", cfg=None, max_bad=8):
         ok, depth, r = validate_trace(p, module, cfg)
         ctx.add("trace_events", len(part) if ok else max(0, (depth or 1) - 1))
         ctx.add("trace_states", r.distinct)
+        # which actions of the trace specification were exercised (every accepted line is one step of the action named by its
+        # event): evidence against vacuity
+        kinds = ctx.cov.setdefault("validated_events_by_kind", {})
+        for r_ in part[:len(part) if ok else max(0, (depth or 1) - 1)]:
+            k_ = r_.get("e", "?")
+            if k_ in ("Next", "Seek"):
+                k_ += ":hit" if r_.get("ok") else ":miss"
+            kinds[k_] = kinds.get(k_, 0) + 1
         if ok:
             ctx.add("traces_validated_against_impl", len(execs) - start)
             break
